@@ -311,6 +311,85 @@ TokPredict(seq) ==
        (IF Recognised(seq) THEN "Ok" ELSE "?")
   ELSE IF Recognised(seq) THEN "Ok" ELSE "UnitParseError"
 
+\* ============================================ total side: the Python corner
+\* Strings built from what Python's own evaluation machinery offers: a head name (the dunder names that
+\* eval() plants in, or resolves through, the globals it is given; a unit name; the parser's own callables;
+\* a string constant), followed by trailers (subscripts with string constants, calls, star-args, attribute
+\* chains), placed in a wrapper (product, f-string / format spec, walrus, comprehension, lambda, star-args,
+\* conditional, sqrt argument, exponent).  A case also says whether the parser is WARM (it has evaluated at
+\* least one expression in this process, so eval() has planted "__builtins__" in the shared global dict) or
+\* COLD (that entry removed): the state of the shared dict is part of the input.
+PyHeads == << "__builtins__", "__import__", "__name__", "__class__", "__dict__", "__globals__", "__loader__",
+              "__spec__", "__build_class__", "__debug__", "m", "Symbol", "sqrt", "'abc'" >>
+NDunder == 10
+PyTrailers == << "['abs']", "[\"len\"]", "['__import__']", "['exec']", "(m)", "('abc')", "('os')", "()", "(*m)", "(**m)",
+                 ".__class__", ".__dict__", ".__globals__", ".__call__", ".__builtins__", ".__init__" >>
+\* wrapper = text before E, text between (when E occurs twice), text after
+PyWraps == <<
+  [a |-> "", two |-> FALSE, b |-> "", c |-> ""],
+  [a |-> "", two |-> FALSE, b |-> "", c |-> "*m"],
+  [a |-> "f'{", two |-> FALSE, b |-> "", c |-> "}'"],
+  [a |-> "f'{m:{", two |-> FALSE, b |-> "", c |-> "}}'"],
+  [a |-> "(x:=", two |-> FALSE, b |-> "", c |-> ")"],
+  [a |-> "[x for x in ", two |-> FALSE, b |-> "", c |-> "]"],
+  [a |-> "[", two |-> FALSE, b |-> "", c |-> " for x in (m,)]"],
+  [a |-> "(lambda:", two |-> FALSE, b |-> "", c |-> ")()"],
+  [a |-> "(lambda x=", two |-> FALSE, b |-> "", c |-> ":x)()"],
+  [a |-> "sqrt(*", two |-> FALSE, b |-> "", c |-> ")"],
+  [a |-> "sqrt(m,**", two |-> FALSE, b |-> "", c |-> ")"],
+  [a |-> "", two |-> TRUE, b |-> " if ", c |-> " else m"],
+  [a |-> "sqrt(", two |-> FALSE, b |-> "", c |-> ")"],
+  [a |-> "m**", two |-> FALSE, b |-> "", c |-> ""]
+>>
+RECURSIVE PyTrail(_, _)
+PyTrail(tr, i) == IF i > Len(tr) THEN "" ELSE PyTrailers[tr[i]] \o PyTrail(tr, i + 1)
+PyExpr(h, tr) == PyHeads[h] \o PyTrail(tr, 1)
+PyText(h, tr, w) == LET e == PyExpr(h, tr) x == PyWraps[w] IN
+                    x.a \o e \o (IF x.two THEN x.b \o e ELSE "") \o x.c
+\* transcription: _auto_positive_symbol turns every dunder name into Symbol('...') (warm or cold: the
+\* "__builtins__" entry of the dict is neither a type nor callable), so the string is refused and evaluates
+\* nothing foreign.  Other heads: not transcribed.
+PyPredict(h) == IF h <= NDunder THEN "UnitParseError" ELSE "?"
+
+\* ============================================== re-readable side: persistence
+\* A unit is written by a persistence route and read back.  What denotes the unit is the text str(units)
+\* TOGETHER WITH the symbol table that travels with it.  Registry kinds (the special symbol S of the case):
+\*   default    untouched registry, S = pc
+\*   user       S = code_length added by the user          userpfx   S = foo_bar added, prefixable
+\*   usermod    S = code_length added, then modified
+\*   modify     default symbol Msun re-valued by modify()  modifyq   default symbol pc re-valued by a quantity
+\*   readd      default symbol pc re-valued by add() of the existing name
+\*   mixed      pc re-valued + code_time added (unit pc/code_time)
+RegKinds == <<"default", "user", "userpfx", "usermod", "modify", "modifyq", "readd", "mixed">>
+DefaultName(rk) == rk \in {"default", "modify", "modifyq", "readd", "mixed"}   \* S is a key of the default table
+Revalued(rk) == rk \in {"modify", "modifyq", "readd", "mixed"}                 \* ... with a value of the registry's own
+Prefixable(rk) == rk \in {"default", "userpfx", "modifyq", "readd"}
+Forms == <<"S", "S**2", "S/s", "kS">>
+Carriers == <<"array", "quantity", "unit">>
+Routes == <<"pickle2", "pickle3", "pickle4", "pickle5", "savetxt", "string", "hdf5">>
+IsPickle(rt) == rt \in {"pickle2", "pickle3", "pickle4", "pickle5"}
+PersistCase(rk, f, ca, rt) ==
+  /\ (f = "kS" => Prefixable(rk))
+  /\ (ca = "unit" => IsPickle(rt))
+  /\ (rt = "savetxt" => ca = "array")
+  /\ (rt = "string" => ca = "quantity")
+\* transcription of what travels: pickle stores str(units) + the whole table (a bare Unit pickles its registry
+\* object); write_hdf5 stores str(units) + the rows whose KEY is absent from the default table; savetxt and
+\* to_string store the text only (from_string is given the writer's registry by the harness; loadtxt has no
+\* registry argument and reads against the default table).
+\* Predicted reading of the scale: "written", "stock" (the default table's value) or "raise".
+HasUserName(rk) == rk \in {"user", "userpfx", "usermod", "mixed"}
+\* from_string has a grammar of its own (letters, * / and integer powers): names with "_" or parentheses are refused
+PersistPredict(rk, rt) ==
+  IF IsPickle(rt) THEN "written"
+  ELSE IF rt = "string" THEN (IF HasUserName(rk) THEN "raise" ELSE "written")
+  \* (today write_hdf5 drops re-valued default symbols - a known finding, P fails there; the prediction is the
+  \* repaired behaviour so that the check is silent with the repair applied)
+  ELSE IF rt = "hdf5" THEN "written"
+  ELSE (IF HasUserName(rk) THEN "raise" ELSE IF Revalued(rk) THEN "stock" ELSE "written")
+\* routes whose persisted form carries the symbol table
+CarriesTable(rt) == IsPickle(rt) \/ rt = "hdf5"
+
 \* ================================================================ property C20
 \* --- totality: for any string, Unit(s) succeeds or raises UnitParseError; nothing foreign is evaluated.
 \* `o` = observed outcome ("Ok", an exception class name, or "Hang"); `ev` = foreign things the evaluated
@@ -330,5 +409,15 @@ C20_SpellingOk(a, ob, first) ==
 \* --- re-readability: text printed for unit u parses back to an equal unit; identical when coefficient free.
 \* `u` and `r` are projections of the printed unit and of the re-read one.
 C20_RoundTripEqual(u, r) == r.o = "Ok" /\ r.dim = u.dim /\ r.off = u.off /\ r.sc
+\* --- persistence: the re-read unit equals the written one (dimension, offset, scale).  `w`/`r` project the
+\* written and the re-read unit; r.sc says which scale the reader found ("written" / "stock" / "other").
+\* Text-only routes (savetxt -> loadtxt reads against the default table; to_string -> from_string is given the
+\* writer's registry but has a small grammar of its own): the text may be refused (Raise) but never read as
+\* something else; for a re-valued default symbol nothing is demanded of savetxt/loadtxt (no table travels and
+\* loadtxt takes no registry).
+C20_PersistEqual(w, r) == r.o = "Ok" /\ r.dim = w.dim /\ r.off = w.off /\ r.sc = "written"
+C20_Persist(rk, rt, w, r) ==
+  IF CarriesTable(rt) THEN C20_PersistEqual(w, r)
+  ELSE (rt = "savetxt" /\ Revalued(rk)) \/ r.o = "Raise" \/ C20_PersistEqual(w, r)
 C20_RoundTripIdentical(u, r) == u.cf => (r.o = "Ok" /\ r.same /\ r.hash /\ r.vec = u.vec /\ r.coef = u.coef)
 =============================================================================
